@@ -189,6 +189,12 @@ func (r Condition) SetOperator(op Operator) Condition {
 }
 
 func (r *condition) setOperator(op Operator) {
+	// a nil pointer of a type that implements Operator is
+	// no operator either: none of its methods can be called.
+	if _, v, _ := derefPtr(assertReflect(op)); !v.IsValid() {
+		return
+	}
+
 	if op != nil && len(op.Context()) > 0 && len(op.String()) > 0 {
 		r.op = op
 	}
